@@ -4,7 +4,9 @@ TLC: Quote(n) as IdentifierPreparer must emit it (bare iff all lower case, only 
 reserved word - the three tables EXTRACTED from the working tree per dialect) is read by the backend's lexer as exactly one
 identifier token naming n, alone and between other tokens (IdentOK), for every name up to the bound over 18 quote/escape-weighted
 characters plus every reserved word of the dialect, every keyword of SQLite's grammar and case variants; a bare word must not be a
-keyword of the BACKEND - for SQLite that set is MEASURED (each candidate used unquoted on sqlite3).  Dotted names: the lexer reads
+keyword of the BACKEND - for SQLite that set is MEASURED (each candidate used unquoted on sqlite3) - nor start with a digit or $
+(the backend's rule, stated in the specification and calibrated on SQLite the same way; a second family enumerates every name over
+{0 1 9 a _ $} so each digit class / _ / $ occurs in first and later positions).  Dotted names: the lexer reads
 Format(parts) as name . name and the transcription of unformat_identifiers' regular expression recovers the parts (DottedOK).
 Binding: quote / quote_identifier / _requires_quotes / format_table / format_column / unformat_identifiers of 7 dialect
 configurations must EQUAL the specification; on SQLite every name is used as table, column, index, constraint (unique, check,
@@ -22,7 +24,8 @@ MANIFEST = dict(
          "the conditional-quoting rule with the dialect's reserved words, legal characters and illegal initial characters extracted from "
          "the working tree at run time; TLC proves for every name of <=2 (quick) / <=3 (thorough) characters over 18 characters plus every "
          "reserved word / SQLite grammar keyword that the emitted identifier is exactly one identifier token naming the input (bare words "
-         "must not be keywords of the backend: measured on SQLite by using each candidate unquoted), and that formatted dotted names split "
+         "must not be keywords of the backend: measured on SQLite by using each candidate unquoted; nor start with a digit or $: the backend's "
+         "rule, calibrated on SQLite, with all names <=2/3 over {0,1,9,a,_,$} + 007, 0_day, 0x10, <d>lives enumerated for every dialect), and that formatted dotted names split "
          "back into their components. quote/format_table/format_column/unformat_identifiers of 7 dialect configurations must equal the "
          "specification; on SQLite every name (incl. all keywords) is used as table, column, index, unique/check/foreign-key constraint and "
          "schema name through DDL, INSERT, SELECT, UPDATE..RETURNING, DELETE and reflection, which must return the same name.",
